@@ -1,21 +1,45 @@
-//! Lists the modules of hcimpl (`/verif/harness/hcimpl/src/*.rs` except `main.rs`) so that hcsched
-//! compiles the very same interpreter sources (one source of truth); see `src/main.rs`.
+//! Lists the modules of hcimpl that the protocol interpreter (`s2.rs`, `s3.rs`) needs — the closure
+//! of the `crate::<module>` references — so that hcsched compiles the very same sources (one source
+//! of truth); see `src/main.rs`.
+use std::collections::BTreeSet;
 use std::io::Write;
+
+fn refs(text: &str) -> Vec<String> {
+    let mut out = vec![];
+    let mut rest = text;
+    while let Some(i) = rest.find("crate::") {
+        rest = &rest[i + 7..];
+        if let Some(body) = rest.strip_prefix('{') {
+            // use crate::{a, b::c, D};
+            let end = body.find('}').unwrap_or(body.len());
+            for part in body[..end].split(',') {
+                let name: String = part.trim().chars().take_while(|c| c.is_alphanumeric() || *c == '_').collect();
+                out.push(name);
+            }
+        } else {
+            let name: String = rest.chars().take_while(|c| c.is_alphanumeric() || *c == '_').collect();
+            out.push(name);
+        }
+    }
+    out
+}
 
 fn main() {
     let src = "/verif/harness/hcimpl/src";
     println!("cargo:rerun-if-changed={src}");
-    let mut names: Vec<String> = std::fs::read_dir(src)
-        .expect("hcimpl sources")
-        .filter_map(|e| e.ok())
-        .filter_map(|e| e.file_name().into_string().ok())
-        .filter(|n| n.ends_with(".rs") && n != "main.rs")
-        .map(|n| n.trim_end_matches(".rs").to_string())
-        .collect();
-    names.sort();
+    let mut need: BTreeSet<String> = ["s2".to_string(), "s3".to_string()].into_iter().collect();
+    let mut todo: Vec<String> = need.iter().cloned().collect();
+    while let Some(m) = todo.pop() {
+        let text = std::fs::read_to_string(format!("{src}/{m}.rs")).expect("hcimpl module");
+        for r in refs(&text) {
+            if r != "main" && std::path::Path::new(&format!("{src}/{r}.rs")).exists() && need.insert(r.clone()) {
+                todo.push(r);
+            }
+        }
+    }
     let out = std::path::Path::new(&std::env::var("OUT_DIR").unwrap()).join("hcimpl_mods.rs");
     let mut f = std::fs::File::create(out).unwrap();
-    for n in names {
+    for n in need {
         writeln!(f, "#[path = \"{src}/{n}.rs\"]\nmod {n};").unwrap();
     }
 }
